@@ -420,20 +420,34 @@ def check_waits(ctx, ex):
         if fn is None:
             raise AnalysisError(f"{h} not found")
         ctx.fn(f"Executor.{h}")
-        loops = [n for n in ast.walk(fn) if isinstance(n, ast.While)]
+        def kind_of(t):
+            """'any' / 'all' / 'single' when t is `any|all(v is None for v in values)` or `<name> is None`"""
+            if isinstance(t, ast.Call) and dotted(t.func) in ("any", "all") and len(t.args) == 1 and isinstance(t.args[0], ast.GeneratorExp):
+                g = t.args[0]
+                if isinstance(g.generators[0].target, ast.Name) and A.norm(g.elt) == f"{g.generators[0].target.id}isNone":
+                    return dotted(t.func), True
+            if isinstance(t, ast.Compare) and len(t.ops) == 1 and isinstance(t.left, ast.Name) and isinstance(t.comparators[0], ast.Constant) and t.comparators[0].value is None:
+                if isinstance(t.ops[0], ast.Is):
+                    return "single", True
+                if isinstance(t.ops[0], ast.IsNot):
+                    return "single", False
+            return None, True
+
         got = None
         brk = False
-        for lp in loops:
-            for st in lp.body:
-                if isinstance(st, ast.If) and any(A.is_self_attr(c.func, "_do_wait") for s2 in st.body for c in A.calls_in(s2)):
-                    t = st.test
-                    if isinstance(t, ast.Call) and dotted(t.func) in ("any", "all") and len(t.args) == 1 and isinstance(t.args[0], ast.GeneratorExp):
-                        g = t.args[0]
-                        if A.norm(g.elt) == f"{g.generators[0].target.id}isNone":
-                            got = dotted(t.func)
-                    elif isinstance(t, ast.Compare) and A.norm(t).endswith("isNone") and isinstance(t.left, ast.Name):
-                        got = "single"
-                    brk = any(isinstance(x, ast.Break) for x in st.orelse)
+        # the wait is reached while the condition holds, and the loop is left when it does not (any branching style)
+        for c in A.calls_in(fn):
+            if A.is_self_attr(c.func, "_do_wait"):
+                for t, pol in G.path_conditions(fn, c):
+                    k_, sense = kind_of(t)
+                    if k_ is not None and pol == sense:
+                        got = k_
+        for n in A.body_nodes(fn):
+            if isinstance(n, ast.Break):
+                for t, pol in G.path_conditions(fn, n):
+                    k_, sense = kind_of(t)
+                    if k_ is not None and k_ == got and pol != sense:
+                        brk = True
         ctx.check("C12.W", f"{h}:polls-while-{quant}-undefined", got == quant and brk,
                   f"{h} waits while `{got}` of the entries is None (and breaks otherwise: {brk}); the instruction must wait while {quant} awaited entr{'y is' if quant == 'single' else 'ies are'} undefined", repo.loc(m, fn),
                   sample={"handler": h, "quantifier": got})
